@@ -9,7 +9,9 @@ from props.devs_common import coq_case, nontrivial, op_kinds, run_impl  # noqa: 
 
 ID = "C14"
 COQ_PROPERTY_FILE = "Properties/C14.v"
-COQ_DEPS = ["Generated/Tables.v", "Model/Devs.v", "Model/DevsSpec.v", "Proofs/DevsProofs.v", "Proofs/DevsOrderProofs.v", "Proofs/DevsOnceProofs.v", "Proofs/DevsLiveProofs.v", "Proofs/DevsAtomicProofs.v", "Proofs/DevsChunkProofs.v", "Proofs/DevsStepProofs.v", "Proofs/DevsTopProofs.v", "Proofs/DevsTop14Proofs.v"]
+COQ_DEPS = ["Generated/Tables.v", "Model/Devs.v", "Model/DevsSpec.v", "Model/Heap.v", "Proofs/DevsProofs.v", "Proofs/DevsOrderProofs.v",
+            "Proofs/DevsOnceProofs.v", "Proofs/DevsLiveProofs.v", "Proofs/DevsAtomicProofs.v", "Proofs/DevsChunkProofs.v",
+            "Proofs/DevsStepProofs.v", "Proofs/DevsTopProofs.v", "Proofs/DevsTop14Proofs.v", "Proofs/HeapProofs.v", "Proofs/DevsHeapProofs.v"]
 COQ_IMPORTS = "From Mesa Require Import Generated.Tables Model.Devs."
 COQ_CASE_TYPE = "case"
 COQ_RUN = "run_case"
@@ -30,7 +32,7 @@ def _random_case(rng, cls):
         if x < 0.36:
             ops.append(g.sched(2, False))
         elif x < 0.68:
-            ops.append(g.run_piece())
+            ops.append(g.run_piece(p_outside=0.04))
         elif x < 0.80 and g.tags:
             ops.append(["cancel", rng.choice(g.tags[-6:]) if rng.random() < 0.7 else rng.choice(g.tags)])
         elif x < 0.96:
@@ -134,7 +136,7 @@ def enumerate_cases(tier, broken=False):
 
 RULE = ("histories = one simulator (ABMSimulator or DEVSimulator, after setup) + a sequence of schedule_event_now/_relative/"
         "_absolute/_next_tick (int and dyadic float times, ties in time and priority, 6% into the past or at a wrong unit), "
-        "cancel_event, dropping the object whose bound method is the callable, run_until / run_for / run_next_event, "
+        "cancel_event, dropping the object whose bound method is the callable, run_until / run_for / run_next_event (4% with a horizon outside the statement), "
         "peak_ahead(n); events carry user code that itself schedules / cancels / drops; three families: general (60%), "
         "peek after shuffled pushes (20%), scheduling from inside running events with 35% rejected calls (20%); "
         "non-trivial = at least 3 ops and one run call that executed something; distinct = by SHA1 of the history")
@@ -143,8 +145,9 @@ TRUSTED_BASE = [
     "no axioms: Print Assumptions reports 'Closed under the global context' for every C14 theorem",
     "harness/tables/devs.py (T1): Priority values, the SimulationEvent.__lt__ tuple, the priority of model.step",
     "harness/props/devs_common.py driver+observer+Gallina printer (T2, differential testing, not a proof)",
-    "Model/Devs.v is a hand transcription of eventlist.py/simulator.py; CPython heapq is trusted to be a priority queue "
-    "w.r.t. __lt__ (heappush = ordered insert, heappop = least element); weak references die when the holder object is dropped (refcounting)",
+    "Model/Devs.v is a hand transcription of eventlist.py/simulator.py; the heap is abstracted as a list ordered by __lt__ - "
+    "justified by Model/Heap.v (transcription of CPython heapq, tied to the real heapq by fixed example arrays only, not by T2) and the "
+    "theorem C14_heap_refines_sorted_list; weak references die when the holder object is dropped (CPython refcounting)",
     "Uint63 primitive hash only in scratch Cases files, never under a theorem",
 ]
 ASSUMPTIONS = [
@@ -158,10 +161,13 @@ LEVEL_TEXT = ("Machine-checked Coq theorems over a Gallina transcription of Even
               "the event list stays ordered with all times >= clock; each executed event is the least live pending event, runs with "
               "clock = its time, is not cancelled and has a live callable, runs at most once; run_until leaves the clock at the horizon "
               "with no live event <= horizon left; rejected schedule calls (past, wrong unit) leave the simulator untouched; "
-              "peak_ahead is the sorted prefix of the live events and its head is the next event to run. T1 ties key/priorities to the "
+              "no live event is lost (at least once); every continuation after a rejected call observes the same; "
+              "peak_ahead is the sorted prefix of the live events and its head is the next event to run; a transcription of heapq "
+              "refines the ordered list used by the model. T1 ties key/priorities to the "
               "source, T2 runs the model against the implementation on every history, and an independent oracle states the property "
               "on the implementation's own trace.")
-LEVEL_NOTE = ("Theorems are about the model; heapq itself is abstracted as a priority queue (trusted, exercised by T2). "
+LEVEL_NOTE = ("Theorems are about the model; the heapq transcription (Model/Heap.v) is proved to refine the ordered list the model uses, "
+              "but is itself tied to CPython only by example arrays. "
               "Trusted: Coq kernel, the T1 extractors, the driver/observer. No axioms.")
 TECHNIQUE = "Coq proof (invariants by induction over histories and fuel, closed under global context) + source-regenerated tables + vm_compute correspondence"
 DESIGN_REF = "DESIGN.md section 4, C14"
